@@ -52,7 +52,7 @@ def proof_check(ctx: core.Ctx) -> None:
         return
     sdir = env.scratch("tlaps")
     try:
-        shutil.copy(env.SPEC / "MaxPrincipleProof.tla", sdir / "MaxPrincipleProof.tla")
+        shutil.copy(env.SPEC / "tlaps" / "MaxPrincipleProof.tla", sdir / "MaxPrincipleProof.tla")
         for stretch in (3, 10):
             try:
                 r = subprocess.run(["tlapm", "--cleanfp", "--stretch", str(stretch), "--threads", "8", "MaxPrincipleProof.tla"],
